@@ -66,12 +66,20 @@ def parser_consts(repo, info):
     P = _import_repo(repo, 'parser')
     indent, dedent, aliases = P.INDENT, P.DEDENT, dict(P.ROOT_ALIASES)
     pat, flags = _compiled(P.Parser.NON_INLINE_START_RE)
-    if flags:
-        raise TranslateError(f'NON_INLINE_START_RE has flags {flags}')
-    m = re.fullmatch(r'\[((?:[^\]\\]|\\.)*)\]\+', pat, re.S)
-    if not m:
-        raise TranslateError(f'NON_INLINE_START_RE {pat!r} is not of the form [class]+')
-    oc = class_of_body(m.group(1))
+    m = None if flags else re.fullmatch(r'\[((?:[^\]\\]|\\.)*)\]\+', pat, re.S)
+    if m:
+        oc = class_of_body(m.group(1))
+    else:
+        # not written as `[class]+`: read the class off the compiled expression's behaviour on single characters (that the
+        # expression matches maximal runs of that class is then validated by the rule-level tie of C10 on every run)
+        import sys
+        rx = P.Parser.NON_INLINE_START_RE
+        out_ = [chr(cp) for cp in range(sys.maxunicode + 1) if not 0xD800 <= cp <= 0xDFFF and not rx.fullmatch(chr(cp))]
+        if len(out_) > 64:
+            raise TranslateError(f'NON_INLINE_START_RE {pat!r} is not of the form [class]+ and does not behave like a small negated class')
+        if rx.fullmatch('ab' * 40) is None or any(rx.match(c + 'a') for c in out_):
+            raise TranslateError(f'NON_INLINE_START_RE {pat!r} does not match runs of a negated class')
+        oc = ['class', True, ''.join(out_)]
     A = P.AkomaNtosoParser
     indent_size = A.indent_size
     line_re, line_flags = _compiled(A.line_re)
@@ -216,22 +224,66 @@ def _str_set(node):
     return sorted(set(ast.literal_eval(node)))
 
 
+def _clean_num_classes_by_behaviour(G):
+    """Fallback when the four regular expressions of clean_num are not written in the shape `^[c]+`, `[c]+$`, `[c]`,
+    `[c]+`: take the classes from what the compiled expressions *do* to every single code point, then check on many
+    strings that clean_num behaves as the model assumes for those classes (strip leading run, strip trailing run, delete
+    whitespace, collapse each remaining run of punctuation into one hyphen). Any disagreement is a translator error."""
+    import sys, random
+    cps = [chr(cp) for cp in range(sys.maxunicode + 1) if not 0xD800 <= cp <= 0xDFFF]
+    lead = [ord(c) for c in cps if G.leading_punct_re.sub('', c) == '']
+    trail = [ord(c) for c in cps if G.trailing_punct_re.sub('', c) == '']
+    ws = [ord(c) for c in cps if G.whitespace_re.sub('', c) == '']
+    punct = [ord(c) for c in cps if G.punct_re.sub('-', c) == '-' and c != '-'] + ([ord('-')] if G.punct_re.sub('x', '-') == 'x' else [])
+    punct = sorted(set(punct))
+    L, T, W, P = set(lead), set(trail), set(ws), set(punct)
+
+    def ref(s):
+        cs = [ord(c) for c in s]
+        while cs and cs[0] in L:
+            cs.pop(0)
+        while cs and cs[-1] in T:
+            cs.pop()
+        cs = [c for c in cs if c not in W]
+        out = []
+        for c in cs:
+            if c in P:
+                if not (out and out[-1] == -1):
+                    out.append(-1)
+            else:
+                out.append(c)
+        return ''.join('-' if c == -1 else chr(c) for c in out)
+    rnd = random.Random(12345)
+    alpha = [chr(c) for c in (lead[:6] + trail[-6:] + ws[:6] + punct[:6] + punct[-6:])] + list('aZ1-_.() \t\n') + ['\u2014', '\u00a0', '\u3000']
+    g = G()
+    for _ in range(6000):
+        s_ = ''.join(rnd.choice(alpha) for _ in range(rnd.randint(0, 8)))
+        if g.clean_num(s_) != ref(s_):
+            raise TranslateError(f'clean_num({s_!r}) = {g.clean_num(s_)!r}, the modelled shape gives {ref(s_)!r}')
+    return lead, trail, ws, punct
+
+
 def xml_consts(repo, info):
     import re as _re
     import sys
     X = _import_repo(repo, 'xml')
     G = X.IdGenerator
-    lead = _class_shape(*_compiled(G.leading_punct_re), True, False)
-    trail = _class_shape(*_compiled(G.trailing_punct_re), False, True)
-    punct = _class_shape(*_compiled(G.punct_re), False, False)
-    wpat, wflags = _compiled(G.whitespace_re)
-    if wflags:
-        raise TranslateError('whitespace_re has flags')
-    wtree = [str(op) for op, _ in _re._parser.parse(wpat)]
-    if wtree != ['IN'] and wtree != ['LITERAL']:
-        raise TranslateError(f'whitespace_re {wpat!r} is not a single character class')
-    wc = _re.compile(wpat)
-    ws = [cp for cp in range(sys.maxunicode + 1) if wc.fullmatch(chr(cp))]
+    try:
+        lead = _class_shape(*_compiled(G.leading_punct_re), True, False)
+        trail = _class_shape(*_compiled(G.trailing_punct_re), False, True)
+        punct = _class_shape(*_compiled(G.punct_re), False, False)
+        wpat, wflags = _compiled(G.whitespace_re)
+        if wflags:
+            raise TranslateError('whitespace_re has flags')
+        wtree = [str(op) for op, _ in _re._parser.parse(wpat)]
+        if wtree != ['IN'] and wtree != ['LITERAL']:
+            raise TranslateError(f'whitespace_re {wpat!r} is not a single character class')
+        wc = _re.compile(wpat)
+        ws = [cp for cp in range(sys.maxunicode + 1) if wc.fullmatch(chr(cp))]
+        info['clean_num_classes'] = 'read from the regular expressions'
+    except (TranslateError, AttributeError) as ex:
+        lead, trail, ws, punct = _clean_num_classes_by_behaviour(G)
+        info['clean_num_classes'] = f'by behaviour (syntactic reading failed: {ex})'
     exempt = sorted(set(G.id_exempt))
     passthru = sorted(set(G.id_exempt_but_pass_to_children))
     numexp = sorted(set(G.num_expected))
